@@ -150,6 +150,68 @@ pub fn churn<const V: u32>(d: &mut Driver<V>, p: &Params, heap_mb: usize, is_nog
     }
 }
 
+/// Multi-chunk regions (C28 / C02): large objects of 1..7 MB - a request above 4 MB makes the large
+/// object space take a region of several contiguous chunks - are allocated into a small ring of
+/// roots, so that regions are carved into several grants, partly released by the next collection and
+/// reused while other grants of the same region are still live. In discontiguous (Map32) layouts
+/// whole free chunks go back to the global pool.
+pub fn bigchunks<const V: u32>(d: &mut Driver<V>, _p: &Params, heap_mb: usize) {
+    let rounds = arg_u64("rounds", 3);
+    const MB: usize = 1 << 20;
+    let ring = 5usize;
+    for round in 0..rounds {
+        reset(5500 + round);
+        let steps = arg_u64("steps", 24);
+        let mut since_gc = 0;
+        for i in 0..steps {
+            safepoint();
+            // directed prefix (a region carved into grants, its head released first), then random
+            let mbs = match (round % 2, i) {
+                (0, 0) => 6,
+                (0, 1) => 2,
+                (0, 3) => 4,
+                (0, 4) => 2,
+                (0, 6) => 4,
+                (0, 7) => 1,
+                _ => 1 + d.rng.below(7) as usize,
+            };
+            let live: usize = (0..ring).map(|s| {
+                let r = Driver::<V>::root_get(0, s);
+                if r == 0 { 0 } else { hdr_of_ref(r).size }
+            }).sum();
+            let slot = if round % 2 == 0 && i < 8 {
+                [0usize, 1, 0, 0, 2, 0, 3, 4][i as usize]
+            } else {
+                d.rng.below(ring as u64) as usize
+            };
+            if round % 2 == 0 && (i == 2 || i == 5) {
+                // drop the head grant of the region, keep the later ones, and collect
+                d.set_root(0, 0, 0);
+                d.gc(0, true);
+                since_gc = 0;
+                continue;
+            }
+            if live + mbs * MB > heap_mb * MB / 2 {
+                d.set_root(0, slot, 0);
+                d.gc(0, true);
+                since_gc = 0;
+                continue;
+            }
+            let size = mbs * MB - if d.rng.chance(1, 2) { 0 } else { 8 * d.rng.below(4096) as usize };
+            d.new_object(0, slot, 2, size, 2, 8, 0, KIND_PLAIN);
+            since_gc += 1;
+            if since_gc >= 3 && d.rng.chance(1, 2) {
+                let drop = d.rng.below(ring as u64) as usize;
+                d.set_root(0, drop, 0);
+                let ex = d.rng.chance(1, 2);
+                d.gc(0, ex);
+                since_gc = 0;
+            }
+        }
+        d.gc(0, true);
+    }
+}
+
 // ------------------------------------------------------------------------------------------------
 // C31
 // ------------------------------------------------------------------------------------------------
